@@ -24,6 +24,7 @@ structure PlainP (P : Program) (d : DagRef) : Prop where
   noRecur  : ∀ n kw i k v, P.body n kw i k = .ret v → v.isRecur = false ∧ v.isExc = false
   noRecurD : ∀ n kw, (P.dflt n kw).isRecur = false ∧ (P.dflt n kw).isExc = false
   noCb     : ∀ k n, P.cbYield k n = 0
+  noCbR    : ∀ k n, P.cbRaise k n = none
   pools    : P.poolsOk = true
   main     : ∀ s : St, (∀ n, s.opened n = false) → reducedRef P s P.g.input P.g.output false false false = some d
   dest     : d.dest = some P.g.output
@@ -957,7 +958,8 @@ theorem node_success_plain {P : Program} {d : DagRef} (hp : PlainP P d) {s s1 : 
     (htr : Track P d val (val (L[i]'x.hi) = some v)) :
     PInv P d val (nodeSuccess c s1 obs d (L[i]'x.hi) [] v).1 := by
   have hcb : ∀ k n, c.P.cbYield k n = 0 := by rw [x.cP]; exact hp.noCb
-  simp only [nodeSuccess, hcb, cbThen, nodePost, recSpawn, hv.1, Bool.false_eq_true, if_false, storeIf, if_true,
+  have hcr : ∀ k n, c.P.cbRaise k n = none := by rw [x.cP]; exact hp.noCbR
+  simp only [nodeSuccess, hcb, cbThen, cbCall, hcr, nodePost, recSpawn, hv.1, Bool.false_eq_true, if_false, storeIf, if_true,
     Bool.not_false, Bool.true_and, Bool.and_true]
   split
   · simp only [nodeFinish, retTo]
@@ -971,7 +973,8 @@ theorem node_fail_plain {P : Program} {d : DagRef} (hp : PlainP P d) {s s1 : St}
     (htr : Track P d val (NodeFails P val (L[i]'x.hi) e)) :
     PInv P d val (nodeFail c s1 obs d (L[i]'x.hi) [] e).1 := by
   have hcb : ∀ k n, c.P.cbYield k n = 0 := by rw [x.cP]; exact hp.noCb
-  simp only [nodeFail, hcb, cbThen, nodeFailCont, hp.notOneof, Bool.false_eq_true, if_false, raiseOut, unwindFrames]
+  have hcr : ∀ k n, c.P.cbRaise k n = none := by rw [x.cP]; exact hp.noCbR
+  simp only [nodeFail, hcb, cbThen, cbCall, hcr, nodeFailCont, hp.notOneof, Bool.false_eq_true, if_false, raiseOut, unwindFrames]
   exact node_step_finish hp x s1 (.exc e) _ _ (Or.inl ⟨rfl, e, rfl, htr⟩) (by rw [x.cP])
 
 theorem node_afterBody_plain {P : Program} {d : DagRef} (hp : PlainP P d) {s s1 : St} {L : List Node} {i : Nat} {c : Ctx}
@@ -979,6 +982,7 @@ theorem node_afterBody_plain {P : Program} {d : DagRef} (hp : PlainP P d) {s s1 
     (hatt : Track P d val (Att P val (L[i]'x.hi) k kw inv)) :
     PInv P d val (nodeAfterBody c s1 obs d (L[i]'x.hi) false [] k kw inv (P.body (L[i]'x.hi) kw inv k)).1 := by
   have hcb : ∀ k n, c.P.cbYield k n = 0 := by rw [x.cP]; exact hp.noCb
+  have hcr : ∀ k n, c.P.cbRaise k n = none := by rw [x.cP]; exact hp.noCbR
   have hmem : L[i]'x.hi ∈ d.nodes := by
     obtain ⟨mtk, _, hmok⟩ := x.main
     exact hmok.mem_nodes (List.getElem_mem x.hi)
@@ -1023,7 +1027,7 @@ theorem node_afterBody_plain {P : Program} {d : DagRef} (hp : PlainP P d) {s s1 
         have hnext : Track P d val (Att P val (L[i]'x.hi) (k + 1) kw inv) := by
           intro hsol
           exact (hatt hsol).next (by rw [ho]; simp [Retry.decide, hrt, hk])
-        simp only [hcb, cbThen, nodeSleep]
+        simp only [hcb, cbThen, cbCall, hcr, nodeSleep]
         split
         · rw [block_tasks c s1 _ _ _ tk (by rw [x.tasks1, x.ct]; exact x.htk)]
           exact node_step_suspend hp x _ _ _ rfl (by intro e; simp)
@@ -1177,7 +1181,8 @@ theorem pinv_step_node {P : Program} {d : DagRef} (hp : PlainP P d) {s : St} (h 
     obtain rfl := Option.some.inj hs
     have hpe : s.procExists L[i] = false := by simp [St.procExists, h1]
     have hcb : ∀ k n, c.P.cbYield k n = 0 := by rw [hcP]; exact hp.noCb
-    simp only [nodeStart, hpe, Bool.false_eq_true, if_false, hcb, cbThen, nodeBegin]
+    have hcr : ∀ k n, c.P.cbRaise k n = none := by rw [hcP]; exact hp.noCbR
+    simp only [nodeStart, hpe, Bool.false_eq_true, if_false, hcb, cbThen, cbCall, hcr, nodeBegin]
     have x := mk (s.markProcessed L[i]) _ htk rfl rfl rfl rfl
       (by intro m hm; simp [St.markProcessed, upd, hm]) (by simp [St.markProcessed]) (quiet_markProcessed h.quiet _) h2
     obtain ⟨kw, hkw⟩ := nodeKwargs_plain hp (s.markProcessed L[i]) (quiet_markProcessed h.quiet _) (fun p v hv => h.noRecRes p v hv) L[i]
@@ -1620,6 +1625,7 @@ theorem pinv_step_caller {P : Program} {d : DagRef} (hp : PlainP P d) {s : St} (
     (∃ o, out.1.outcome = some o ∧ OutcomeOK P d val s o) ∨ PInv P d val out.1 := by
   obtain ⟨ctk, hc0, hcok⟩ := h.caller
   have hcb : ∀ k n, c.P.cbYield k n = 0 := by rw [hcP]; exact hp.noCb
+  have hcr : ∀ k n, c.P.cbRaise k n = none := by rw [hcP]; exact hp.noCbR
   have hret : ∀ s0 obs o, (mgrReturn c s0 obs o).1.outcome = some o := by
     intro s0 obs o; simp [mgrReturn, St.setOutcome]
   have hcomp : ∀ s0 obs o, (mgrComplete c s0 obs o).1.outcome = some o := by
@@ -1627,7 +1633,7 @@ theorem pinv_step_caller {P : Program} {d : DagRef} (hp : PlainP P d) {s : St} (
     unfold mgrComplete
     split
     · exact hret _ _ _
-    · simp only [hcb, cbThen]; exact hret _ _ _
+    · simp only [hcb, cbThen, cbCall, hcr]; exact hret _ _ _
   unfold stepTask at hs
   rw [hct, hc0] at hs
   cases hcok with
@@ -1660,7 +1666,7 @@ theorem pinv_step_caller {P : Program} {d : DagRef} (hp : PlainP P d) {s : St} (
         simp [taskErrors, spawn, hl1]
       have hex0 : (spawn s [.dagInit d] .run).1.exists c.P.g.output = false := by
         simp [St.exists, spawn, (hfr _).2]
-      simp only [mgrStart, hcb, hp.noCb, cbThen, mgrBegin, hcP, hp.pools, Bool.not_true, Bool.false_eq_true, if_false, hmainref]
+      simp only [mgrStart, hcb, hp.noCb, hp.noCbR, cbThen, cbCall, hcr, mgrBegin, hcP, hp.pools, Bool.not_true, Bool.false_eq_true, if_false, hmainref]
       rw [hcP] at hex0
       simp only [mgrCheck, hne0, hcP, hex0, Bool.not_true, Bool.or_false, Bool.false_eq_true, if_false, block, hct]
       simp only [spawn, hl1, List.cons_append, List.nil_append, List.getElem?_cons_zero, St.setTask, List.set_cons_zero]
@@ -1905,11 +1911,12 @@ theorem reducedRef_congr_opened (P : Program) (s : St) (h : ∀ n, s.opened n = 
 theorem plainP_of_check {P : Program} {d : DagRef} (hc : plainCheck P d = true)
     (hsw : ∀ n, P.g.isSwitch n = false) (hhd : ∀ n, P.g.isOneofHead n = false)
     (hr : ∀ n kw i k v, P.body n kw i k = .ret v → v.isRecur = false ∧ v.isExc = false)
-    (hrd : ∀ n kw, (P.dflt n kw).isRecur = false ∧ (P.dflt n kw).isExc = false) (hcb : ∀ k n, P.cbYield k n = 0) : PlainP P d := by
+    (hrd : ∀ n kw, (P.dflt n kw).isRecur = false ∧ (P.dflt n kw).isExc = false) (hcb : ∀ k n, P.cbYield k n = 0)
+    (hcr : ∀ k n, P.cbRaise k n = none) : PlainP P d := by
   unfold plainCheck at hc
   simp only [Bool.and_eq_true, decide_eq_true_eq, Bool.not_eq_true', List.all_eq_true, List.isEmpty_eq_false_iff] at hc
   obtain ⟨⟨⟨⟨⟨⟨⟨⟨⟨h1, h2⟩, h3⟩, h4⟩, h5⟩, h6⟩, h7⟩, h8⟩, h9⟩, h10⟩ := hc
-  exact { noSwitch := hsw, noHead := hhd, noRecur := hr, noRecurD := hrd, noCb := hcb, pools := h10,
+  exact { noSwitch := hsw, noHead := hhd, noRecur := hr, noRecurD := hrd, noCb := hcb, noCbR := hcr, pools := h10,
           main := fun s hs => by rw [reducedRef_congr_opened P s hs]; exact h1,
           dest := h2, notRec := h3, notOneof := h4, predsIn := h5, outIn := h6, nodup := h7, gne := h8,
           noCase := fun e he => by have := h9 e he; simpa using this }
